@@ -153,6 +153,9 @@ def run_case(ck, case, reqs, pending):
     kw = {"allow_negatives": an}
     if method:
         kw["method"] = method
+    if method == "lsq" and case["seed"] % 2 == 0:
+        kw["use_std"] = False            # the documented default, spelled out by the caller
+        ck.count("lsq_with_explicit_use_std_false")
     if case["rhs"] == "velocity":
         kw["b_matrix"] = "velocity"
     ck.count("method_" + str(method)); ck.count("rhs_" + case["rhs"]); ck.count("allow_negatives_" + str(an))
@@ -208,7 +211,11 @@ def run_case(ck, case, reqs, pending):
     lam = max(0.0, -float(np.mean(r)))
     obj = float(np.sum((r + lam) ** 2) + (np.sum(x) - n) ** 2)
     scale = (1.0 + float(np.max(np.abs(bref)))) ** 2
-    tol_obj = {"inv": 1e-9, "nnls-fallback": 1e-9, "lsq": 1e-6, "lsq_linear": 1e-8}[path] * scale * Mref.shape[0]
+    tol_obj = {"inv": 1e-9, "nnls-fallback": 1e-9, "lsq": 1e-9, "lsq_linear": 1e-8}[path] * scale * Mref.shape[0]
+    if path == "lsq" and opt > 100 * tol_obj:
+        # clearly inconsistent system: Levenberg-Marquardt reaches the optimum to a relative 1e-6 of the objective (measured worst
+        # 8.5e-7 over the thorough tier); an absolute tolerance would hide a different cost function
+        tol_obj = 1e-5 * opt
     consistent = opt <= 1e-12 * scale
     lsq_singular = False
     if path == "lsq_linear":
@@ -235,6 +242,9 @@ def run_case(ck, case, reqs, pending):
                     signature=SIG_LSQLIN if lsq_singular else None)
         ck.count("lsq_linear_velocity_own_system")
     elif nonneg or path != "inv":
+        ck.dist["worst_normalised_objective_gap_" + path] = max(ck.dist.get("worst_normalised_objective_gap_" + path, 0.0), (obj - opt) / (scale * Mref.shape[0]))
+        ck.dist["worst_objective_gap_" + path] = max(ck.dist.get("worst_objective_gap_" + path, 0.0), obj - opt)
+        ck.dist["worst_relative_objective_gap_" + path] = max(ck.dist.get("worst_relative_objective_gap_" + path, 0.0), (obj - opt) / (opt + 1e-12 * scale))
         if obj > opt + tol_obj:
             # finding KF3: the inversion path accepts a negative multiplier (only `xres[:-1]` is inspected)
             sig = SIG_INV if (path == "inv" and z[-1] < 0) else (SIG_LSQLIN if lsq_singular else None)
